@@ -4,13 +4,16 @@ Decided here (round-trip equality over all trees is a value-level statement and 
   C06-R1  who may construct / mutate: HctlTreeNode struct literals occur only in the constructors mk_hybrid, mk_unary,
           mk_binary, mk_atom; nothing in the library or the binaries assigns to formula_str, height or node_type;
   C06-R2  height: 0 for atoms, child.height + 1 for unary / hybrid nodes, max(left.height, right.height) + 1 for binary;
-  C06-R3  text covers structure: in each constructor formula_str is one pair of parentheses around a template that
-          mentions every structural component exactly once and in order (left, operator, right / operator, child /
-          operator, variable, domain when present, child); the domain segment depends only on the presence of a domain;
-          atoms print as their Display; node_type stores exactly the constructor's arguments;
-  C06-R4  spelling tables agree: for every variant of UnaryOp, BinaryOp and HybridOp the text produced by Display is
-          mapped back to the same variant by the tokenizer's arm table; the atoms' Display shapes `{name}`, `%name%`,
-          `name`, `True` / `False` are the shapes the tokenizer / terminal level read."""
+  C06-R3  text covers structure: each constructor is partially evaluated for every operator variant (and for a present / absent
+          domain; helpers of the module inlined, Option combinators folded) and the pieces of formula_str are compared with the
+          template: one pair of parentheses around every structural component exactly once and in order (left, operator, right /
+          operator, child / operator, variable, ` in %label%` exactly when a domain is present, child); atoms print as their
+          Display; node_type stores exactly the constructor's arguments;
+  C06-R4  spelling tables agree: the text a Display impl prints for every variant of UnaryOp, BinaryOp and HybridOp (obtained by
+          partial evaluation of the impl for that variant) is read back as the same operator by the tokenizer's first-decision
+          table (tokspec), whatever non-name character follows; a printed proposition name is read back as one proposition, names
+          that begin like an operator included; the printed constants are in the parser's constant table; the atoms' Display
+          shapes `{name}`, `%name%`, `name` are the shapes the tokenizer reads."""
 import evalnode as E
 import hir
 import semantics as sem
